@@ -208,6 +208,7 @@ type result struct {
 	viaWr       int
 	retMismatch int
 	skipped     []bool
+	doubleClose string
 	lat         []time.Duration // gated kinds: gate release -> the call returned
 }
 
@@ -238,6 +239,7 @@ func oneRun(wk, ck int, script []opSpec, plan uint64) result {
 		started = true
 		go func() {
 			defer close(c.done)
+			ch := pw.Status() // fetched by the consumer itself: for the late kinds during / after the writes
 			if stepwise {
 				c.stepwise(ch)
 			} else {
@@ -455,6 +457,9 @@ func oneRun(wk, ck int, script []opSpec, plan uint64) result {
 	}
 	res.recv = c.vals
 	res.closed = c.closed
+	if res.closed {
+		afterClose(pw, &res)
+	}
 	if c.sizeAsked == 1 && len(sizes) > 0 && c.sizeSeen != sizes[len(sizes)-1] {
 		res.viol = fmt.Sprintf("Size-polled-by-the-consumer-during-Close-is-%d-not-%d", c.sizeSeen, sizes[len(sizes)-1])
 	}
@@ -572,7 +577,45 @@ recv:
 			}
 		}()
 	}
+	if res.closed && res.viol == "" {
+		afterClose(pw, &res)
+	}
 	return sc, res
+}
+
+var doubleCloseTried atomic.Int32
+
+// afterClose: use of the object after Close() has returned. Status() fetched again must be the closed
+// channel (a receive yields "closed" at once, no further value); a second Close() is only recorded
+// (on the unchanged code it panics: send on closed channel).
+func afterClose(pw *ioutil.ProgressWriter, res *result) {
+	select {
+	case v, ok := <-pw.Status():
+		if ok {
+			res.viol = fmt.Sprintf("Status-fetched-after-Close-delivers-a-value-%d", v)
+		}
+	case <-time.After(blockBound):
+		if res.viol == "" {
+			res.viol = "Status-fetched-after-Close-is-not-the-closed-channel"
+		}
+	}
+	if doubleCloseTried.Add(1) <= 40 {
+		out := make(chan string, 1)
+		go func() {
+			defer func() {
+				if r := recover(); r != nil {
+					out <- "panics"
+				}
+			}()
+			pw.Close()
+			out <- "returns"
+		}()
+		select {
+		case res.doubleClose = <-out:
+		case <-time.After(blockBound):
+			res.doubleClose = "blocks"
+		}
+	}
 }
 
 func median(d []time.Duration) time.Duration {
@@ -661,6 +704,10 @@ func run(e *hk.Env) error {
 			stats["runs_with_delivery"]++
 		}
 		stats["consumer_gave_up_waiting"] += r.leaves
+		stats["Status_fetched_again_after_Close"]++
+		if r.doubleClose != "" {
+			stats["second_Close_"+r.doubleClose]++
+		}
 		stats["wrapped_WriteString_calls"] += r.viaStr
 		stats["wrapped_Write_calls"] += r.viaWr
 		stats["return_value_not_passed_through"] += r.retMismatch
